@@ -34,7 +34,8 @@ CONFIG = {
     'thorough': {'shards': 32, 'cases': 8000, 'timeout': 5400, 'floor': 60000},
 }
 REQUIRED = ['steps_checked', 'structure_compared', 'meaning_terms_compared', 'watched_checks', 'op_add', 'op_become', 'op_remove',
-            'op_flags', 'op_obs', 'op_copy', 'op_saveload', 'copy_output_comparisons']
+            'op_flags', 'op_obs', 'op_copy', 'op_saveload', 'copy_output_comparisons',
+            'owners_of_a_private_observed_simulator_removed_or_replaced']
 
 KN = {'op': 'Operation', 'prior': 'Prior', 'sim': 'Simulator', 'summary': 'Summary', 'disc': 'Discrepancy', 'const': 'Constant'}
 
@@ -73,6 +74,11 @@ def _new_desc(rng, ctr, avail, kinds=None):
     if kind in ('summary', 'disc') and not pos:
         ctr[0] += 1
         pos.append({'const': 'c%d' % ctr[0]})
+    if kind in ('summary', 'disc') and rng.random() < 0.12:
+        # a private (underscore-named), parameter-free simulator that carries observed data, used by this node only: like a
+        # private constant it must disappear - together with its observed data - when its only user is removed or replaced
+        ctr[0] += 1
+        pos.append({'psim': 'q%d' % ctr[0], 'obs': 'y%d' % ctr[0]})
     kw = {}
     if kind in ('op', 'sim', 'summary') and avail and rng.random() < 0.35:
         c = [a for a in avail if a not in pos]
@@ -151,7 +157,12 @@ def apply_ref(nodes, op):
 
 # ------------------------------------------------------------------ elfi side
 def _pos_value(m, p):
-    return m[p] if isinstance(p, str) else ('C', p['const'])
+    if isinstance(p, str):
+        return m[p]
+    if 'psim' in p:
+        import elfi
+        return elfi.Simulator(sg.Sym(p['psim'], 0, [], True, True), model=m, name='_' + p['psim'], observed=('O', p['obs']))
+    return ('C', p['const'])
 
 
 def elfi_create(m, name, d):
@@ -190,6 +201,14 @@ def apply_elfi(m, op):
         m.observed[op['target']] = ('O', op['value'])
 
 
+def _private_value(m, p):
+    st = m.source_net.nodes[p]['attr_dict']
+    if '_output' in st:
+        return {'const': st['_output'][1]}
+    ob = m.observed.get(p)
+    return {'psim': st['_operation'].opid, 'obs': ob[1] if ob is not None else None}
+
+
 def canon(m):
     """Structure of the real model up to names of private constants; raises Violation on inconsistency."""
     out = {}
@@ -205,7 +224,7 @@ def canon(m):
         pos, kw, idx = [], {}, []
         for p in sn.predecessors(n):
             par = sn[p][n]['param']
-            val = {'const': sn.nodes[p]['attr_dict']['_output'][1]} if p.startswith('_') else p
+            val = _private_value(m, p) if p.startswith('_') else p
             if isinstance(par, int):
                 idx.append(par)
                 pos.append((par, val))
@@ -215,7 +234,7 @@ def canon(m):
             raise Violation('positional-gaps', 'node %s has positional parent indices %s' % (n, sorted(idx)))
         pos = [v for _, v in sorted(pos, key=lambda t: t[0])]
         # the public accessor must agree with the edges: positional parents in declared order
-        gp = [({'const': sn.nodes[q]['attr_dict']['_output'][1]} if q.startswith('_') else q) for q in m.get_parents(n)]
+        gp = [(_private_value(m, q) if q.startswith('_') else q) for q in m.get_parents(n)]
         if gp != pos:
             raise Violation('get-parents-order', 'get_parents(%s) returns %s, positional parents in declared order are %s' % (n, gp, pos))
         op = st.get('_operation')
@@ -228,7 +247,7 @@ def canon(m):
         obs = m.observed.get(n)
         out[n] = {'cls': st['_class'].__name__, 'opid': opid, 'pos': pos, 'kw': kw,
                   'obs': obs[1] if obs is not None else None, 'param': '_parameter' in st}
-    extra = set(m.observed) - set(out)
+    extra = set(m.observed) - set(out) - {n for n in sn.nodes if n.startswith('_')}
     if extra:
         raise Violation('observed-for-absent-node', 'observed data present for absent nodes %s' % sorted(extra))
     exp_params = sorted(n for n, v in out.items() if v['param'])
@@ -256,6 +275,13 @@ def ref_spec(nodes):
             if isinstance(p, str):
                 emit(p)
                 pos.append(p)
+            elif 'psim' in p:
+                cn = '_' + p['psim']
+                if cn not in done:
+                    spec.append({'name': cn, 'kind': 'sim', 'pos': [], 'kw': {}, 'obs': True, 'meta': False, 'tol': False, 'opid': p['psim'],
+                                 'obsid': p['obs']})
+                    done.add(cn)
+                pos.append(cn)
             else:
                 cn = '_c_' + p['const']
                 if cn not in done:
@@ -360,6 +386,8 @@ def _run(ctx, case, elfi):
                 raise
             except Exception as e:
                 raise Violation('edit-crash', '%s raised %s: %s' % (where, type(e).__name__, str(e)[:300]))
+            if op['op'] in ('become', 'remove') and any(isinstance(q, dict) and 'psim' in q for q in nodes[op['target']]['pos']):
+                ctx.event('owners_of_a_private_observed_simulator_removed_or_replaced')
             apply_ref(nodes, op)
         ctx.event('steps_checked')
         # structure
